@@ -7,7 +7,9 @@
      (3 codec thr enc hdr what)      through WritePacket/ReadPacket of codec V<codec> with
                                      compression threshold thr, cipher on both sides iff enc=1;
                                      what = (0 ec) SetErrno(ec) | (1 gov) SetBody(gov)
-        observed (1 hdr body errno resend) | (0)        resend = BodyToBytes of the decoded packet
+        observed (1 hdr body errno resend fwd) | (0)    resend = BodyToBytes of the decoded packet,
+                                     fwd = (1 hdr body) after sending the decoded packet on again
+                                     through the same codec | (0) that failed
      (4 hdr mode command arg)        request bound to a recording endpoint; mode 0 ReplyWith
                                      (command, body arg), 1 RefuseWith(command, ec), 2 Refuse(ec)
         observed (1 nsent hdr body errno) | (0) panicked
@@ -181,7 +183,7 @@ Definition no_oracle (wide : Z) : oracles :=
   mkOr (fun _ => wide) (fun _ => 0) (fun _ => 0) (fun _ => []) (fun _ => None) (fun _ => []).
 
 Definition check_wire (codec thr : Z) (enc : bool) (h : hdr) (ec : option Z) (g : gov) (wide : Z)
-           (obs : option (hdr * option body * Z * option (list Z))) : verdict :=
+           (obs : option (hdr * option body * Z * option (list Z) * option (hdr * option body))) : verdict :=
   let p0 := pkt_of_hdr h BNil None in
   let p := match ec with
            | Some e => set_errno e p0
@@ -190,14 +192,31 @@ Definition check_wire (codec thr : Z) (enc : bool) (h : hdr) (ec : option Z) (g 
   let m := if codec =? 1 then wire_v1 tag_coders thr enc enc p else wire_v2 tag_coders thr enc enc p in
   match m, obs with
   | None, None => VOk
-  | Some q, Some (oh, ob, oerrno, oresend) =>
+  | Some q, Some (oh, ob, oerrno, oresend, ofwd) =>
+      (* the decoded packet sent on again through the same codec *)
+      let m2 := if codec =? 1 then wire_v1 tag_coders thr enc enc q else wire_v2 tag_coders thr enc enc q in
       let corr :=
         vjoin (check_that (hdr_eqb (hdr_of_pkt q) oh) (VMismatch 6))
        (vjoin (check_that (obody_eqb (pbody q) ob) (VMismatch 7))
        (vjoin (check_that (errno q =? oerrno) (VMismatch 8))
-              (check_that (ol_eqb (Some (body_to_bytes (pbody q))) oresend) (VMismatch 9)))) in
+       (vjoin (check_that (ol_eqb (Some (body_to_bytes (pbody q))) oresend) (VMismatch 9))
+              (match m2, ofwd with
+               | Some q2, Some (oh2, ob2) =>
+                   check_that (hdr_eqb (hdr_of_pkt q2) oh2 && obody_eqb (pbody q2) ob2) (VMismatch 20)
+               | None, None => VOk
+               | _, _ => VMismatch 20
+               end)))) in
       let prop :=
         vjoin (check_that (match oresend with Some _ => true | None => false end) (VPropFail 3))
+       (vjoin (* "every packet a decoder can produce can be sent on again": it arrives, unchanged *)
+              (check_that (match ofwd with
+                           | Some (oh2, ob2) => hdr_eqb oh oh2 &&
+                                                match ob, ob2 with
+                                                | Some b1, Some b2 => body_eqb b1 b2
+                                                | _, _ => false
+                                                end
+                           | None => false
+                           end) (VPropFail 3))
               (match ec with
                | Some e => check_that (oerrno =? e) (VPropFail 4)
                | None =>
@@ -208,7 +227,7 @@ Definition check_wire (codec thr : Z) (enc : bool) (h : hdr) (ec : option Z) (g 
                                            | [] => obody_eqb BNil ob
                                            | w => obody_eqb (BBytes w) ob
                                            end) (VPropFail 3))
-               end) in
+               end)) in
       vjoin prop corr
   | _, _ => VMismatch 10
   end.
@@ -245,6 +264,8 @@ Definition check_reply (h : hdr) (mode command : Z) (argb : body) (argec : Z)
 
 Definition check (c : sx) : verdict :=
   match c with
+  (* the library panicked outside the calls whose panic is an outcome of its own *)
+  | SList [SList _; SList [SInt (-1)]] => VPropFail 8
   | SList [SList [SInt 0; g]; SList [ob; ri; rf; rs; rb]] =>
       match gov_of g, body_of ob, rint_of ri, rint_of rf, rbytes_of rs, rbytes_of rb with
       | Some (g, wide), Some ob, Some ri, Some rf, Some rs, Some rb => check_body g wide ob ri rf rs rb
@@ -273,10 +294,19 @@ Definition check (c : sx) : verdict :=
           let obs' :=
             match obs with
             | SList [SInt 0] => Some None
-            | SList [SInt 1; oh; ob; SInt oerrno; ors] =>
-                match hdr_of oh, body_of ob, rbytes_of ors with
-                | Some oh, Some ob, Some ors => Some (Some (oh, ob, oerrno, ors))
-                | _, _, _ => None
+            | SList [SInt 1; oh; ob; SInt oerrno; ors; fwd] =>
+                let ofwd := match fwd with
+                            | SList [SInt 1; oh2; ob2] =>
+                                match hdr_of oh2, body_of ob2 with
+                                | Some oh2, Some ob2 => Some (Some (oh2, ob2))
+                                | _, _ => None
+                                end
+                            | SList [SInt 0] => Some None
+                            | _ => None
+                            end in
+                match hdr_of oh, body_of ob, rbytes_of ors, ofwd with
+                | Some oh, Some ob, Some ors, Some ofwd => Some (Some (oh, ob, oerrno, ors, ofwd))
+                | _, _, _, _ => None
                 end
             | _ => None
             end in
